@@ -179,6 +179,8 @@ def inspect_roundtrip(headers):
 # spellings of a template reference that str.format accepts: a reference to a column that is not captured must be refused in every one of them
 TEMPLATE_SPELLINGS = ('{kind:>8}', '{kind!s}', '{kind!r:>4}', '{memo:>8} {kind}', '{memo!s}', '{ kind }', '{}', '{0}', '{kind} {}', '{kind.upper}', '{kind[0]}',
                       '{kind} {{literal}}', '{kind} {', '{kind} }', 'plain text',
+                      # column names are stored in lower case and str.format looks names up as written: a reference in another letter case names no captured column
+                      '{Kind}', '{KIND} - {memo}', '{kind} {Memo}',
                       # replacement fields nested in a format spec are looked up too
                       '{kind:{w}}', '{kind:{}}', '{kind:>{memo}}', '{kind:{kind}}', '{kind:{w}} {memo}', '{memo:<{kind}}{kind:^{w}}')
 
